@@ -709,6 +709,9 @@ class W3PostingsWriter(base.PostingsWriter):
         self._ids.append(id_)
         self._weights.append(weight)
 
+        # The weights are stored as 32-bit floats, which can round up; the
+        # maximum must bound the value that will be read back
+        weight = self._weights[-1]
         if weight > self._maxweight:
             self._maxweight = weight
         if vbytes:
